@@ -125,6 +125,10 @@ type FCtx struct {
 	termination []string
 	pureFacts   []string
 	ctxSuffixOf map[string]string
+	cacheParent map[string]string
+	cacheN      int
+	recoverLit  *ast.FuncLit
+	inRecover   bool
 }
 
 func (fc *FCtx) frame() *frame { return fc.frames[len(fc.frames)-1] }
@@ -252,6 +256,18 @@ func (fc *FCtx) merge(sts []*State) *State {
 		if !all {
 			continue
 		}
+		anyBz := false
+		for _, s := range sts {
+			if v := s.vars[o]; v.S != nil && v.S.Name == "Bz" {
+				anyBz = true
+			}
+		}
+		if anyBz && !same {
+			for _, s := range sts {
+				s.vars[o] = fc.asBz(s.vars[o])
+			}
+			v0 = sts[0].vars[o]
+		}
 		if same {
 			out.vars[o] = v0
 			continue
@@ -270,10 +286,19 @@ func (fc *FCtx) merge(sts []*State) *State {
 	for _, g := range gs {
 		v0 := sts[0].ghost[g]
 		same := true
+		all := true
 		for _, s := range sts[1:] {
-			if s.ghost[g].T != v0.T {
+			gv, ok := s.ghost[g]
+			if !ok {
+				all = false
+				break
+			}
+			if gv.T != v0.T {
 				same = false
 			}
+		}
+		if !all {
+			continue
 		}
 		if same {
 			out.ghost[g] = v0
